@@ -11,10 +11,12 @@ import (
 	. "github.com/pbenner/autodiff"
 	"github.com/pbenner/autodiff/algorithm/adam"
 	"github.com/pbenner/autodiff/algorithm/bfgs"
+	"github.com/pbenner/autodiff/algorithm/blahut"
 	"github.com/pbenner/autodiff/algorithm/gradientDescent"
 	"github.com/pbenner/autodiff/algorithm/lineSearch"
 	"github.com/pbenner/autodiff/algorithm/newton"
 	"github.com/pbenner/autodiff/algorithm/rprop"
+	"github.com/pbenner/autodiff/algorithm/saga"
 	"pgregory.net/rapid"
 	"verifharness/gen"
 	"verifharness/model"
@@ -761,4 +763,339 @@ func TestC07_line_search_wolfe(t *testing.T) {
 		}
 		c.End()
 	})
+}
+
+// ---------------------------------------------------------------------------------------------
+// (d) SAGA: the returned point and the previous epoch's iterate satisfy the stopping rule
+// max|dx| / max|x| <= epsilon*gamma; the delta handed to the hook is that quantity
+
+func TestC07_saga_stop_rule(t *testing.T) {
+	rapid.Check(t, func(t *rapid.T) {
+		d := rapid.IntRange(1, 3).Draw(t, "dim")
+		n := rapid.IntRange(2, 8).Draw(t, "n")
+		z := model.NewMat(n, d)
+		y := make([]float64, n)
+		L := 0.0
+		for i := 0; i < n; i++ {
+			s := 0.0
+			for j := 0; j < d; j++ {
+				z[i][j] = rapid.Float64Range(-2, 2).Draw(t, fmt.Sprintf("z[%d][%d]", i, j))
+				s += z[i][j] * z[i][j]
+			}
+			y[i] = rapid.Float64Range(-3, 3).Draw(t, fmt.Sprintf("y[%d]", i))
+			L = math.Max(L, s)
+		}
+		gamma := rapid.Float64Range(0.05, 0.3).Draw(t, "gammaFactor") / math.Max(L, 0.1)
+		eps := math.Pow(10, -float64(rapid.IntRange(2, 8).Draw(t, "epsExp")))
+		maxIt := rapid.SampledFrom([]int{2, 20, 5000}).Draw(t, "maxIterations")
+		reg := rapid.SampledFrom([]string{"none", "none", "l1", "l2", "tikhonov"}).Draw(t, "regularization")
+		regv := rapid.Float64Range(0.01, 1).Draw(t, "lambda")
+		useHook := rapid.Bool().Draw(t, "hook")
+		seed := int64(rapid.IntRange(0, 1000).Draw(t, "seed"))
+		x0 := make([]float64, d)
+		for j := range x0 {
+			x0[j] = rapid.Float64Range(-2, 2).Draw(t, fmt.Sprintf("x0[%d]", j))
+		}
+		c := obs.Begin("saga_stop_rule", "saga least squares z=%v y=%v x0=%v gamma=%v eps=%g maxIterations=%d reg=%s(%v) hook=%v seed=%d", z, y, x0, gamma, eps, maxIt, reg, regv, useHook, seed)
+		c.Classf("regularization=%s", reg)
+		if useHook {
+			c.Class("hook set")
+		}
+		rows := make([]DenseFloat64Vector, n)
+		for i := range rows {
+			rows[i] = NewDenseFloat64Vector(z[i])
+		}
+		f := saga.Objective1Dense(func(i int, x DenseFloat64Vector) (float64, float64, DenseFloat64Vector, error) {
+			r := -y[i]
+			for j := 0; j < d; j++ {
+				r += z[i][j] * x[j]
+			}
+			return 0.5 * r * r, r, rows[i], nil
+		})
+		args := []interface{}{saga.Gamma{Value: gamma}, saga.Epsilon{Value: eps}, saga.MaxIterations{Value: maxIt}, saga.Seed{Value: seed}}
+		switch reg {
+		case "l1":
+			args = append(args, saga.L1Regularization{Value: regv})
+		case "l2":
+			args = append(args, saga.L2Regularization{Value: regv})
+		case "tikhonov":
+			args = append(args, saga.TikhonovRegularization{Value: regv})
+		}
+		prev := append([]float64{}, x0...)
+		epochs := 0
+		mismatch := ""
+		if useHook {
+			args = append(args, saga.Hook{Value: func(x ConstVector, delta, lambda ConstScalar, epoch int) bool {
+				epochs++
+				cur := floats(x)
+				mx, md := 0.0, 0.0
+				for j := range cur {
+					mx = math.Max(mx, math.Abs(cur[j]))
+					md = math.Max(md, math.Abs(cur[j]-prev[j]))
+				}
+				want := md
+				if mx != 0 {
+					want = md / mx
+				}
+				if math.Abs(delta.GetFloat64()-want) > 1e-12*(1+want) && mismatch == "" {
+					mismatch = fmt.Sprintf("hook at epoch %d: delta %v passed with x=%v, the relative change from the previous epoch's iterate %v is %v", epoch, delta.GetFloat64(), cur, prev, want)
+				}
+				prev = cur
+				return false
+			}})
+		}
+		var res Vector
+		var err error
+		p, to := guarded(func() { res, _, err = saga.Run(f, n, NewDenseFloat64Vector(x0), args...) })
+		if to {
+			c.Class("inconclusive: watchdog")
+			c.End()
+			return
+		}
+		if p != "" {
+			if useHook && reg == "none" && c.Known("C07/saga-hook-without-regularisation-dereferences-nil") {
+				c.End()
+				return
+			}
+			t.Fatalf("%s: %s", c.Desc(), p)
+		}
+		if mismatch != "" {
+			t.Fatalf("%s: %s", c.Desc(), mismatch)
+		}
+		if err != nil {
+			c.Class("routine reported an error")
+			c.End()
+			return
+		}
+		xr := floats(res)
+		if useHook && epochs < maxIt {
+			// stopped by its rule in epoch `epochs`: compare with the iterate of the previous epoch
+			c.NT(epochs >= 2)
+			mx, md := 0.0, 0.0
+			for j := range xr {
+				mx = math.Max(mx, math.Abs(xr[j]))
+				md = math.Max(md, math.Abs(xr[j]-prev[j]))
+			}
+			if !(mx == 0 && md == 0) && !(mx != 0 && md/mx <= eps*gamma*(1+1e-9)) {
+				t.Fatalf("%s: stopped after %d epochs at %v; the previous epoch's iterate was %v: relative change %g exceeds epsilon*gamma = %g", c.Desc(), epochs+1, xr, prev, md/mx, eps*gamma)
+			}
+			c.Class("converged: stop rule verified")
+		} else if useHook {
+			c.Class("iteration cap reached")
+		}
+		for _, v := range xr {
+			if math.IsNaN(v) || math.IsInf(v, 0) {
+				t.Fatalf("%s: returned %v without error", c.Desc(), xr)
+			}
+		}
+		c.End()
+	})
+}
+
+// ---------------------------------------------------------------------------------------------
+// (e) Blahut-Arimoto: after K steps from a full-support start the mutual information of the
+// returned input distribution is within the classical bound of the capacity
+
+func mutualInformation(w model.Mat, p []float64) float64 {
+	n, m := w.Dims()
+	q := make([]float64, m)
+	for i := 0; i < n; i++ {
+		for j := 0; j < m; j++ {
+			q[j] += p[i] * w[i][j]
+		}
+	}
+	s := 0.0
+	for i := 0; i < n; i++ {
+		for j := 0; j < m; j++ {
+			if p[i] > 0 && w[i][j] > 0 {
+				s += p[i] * w[i][j] * math.Log(w[i][j]/q[j])
+			}
+		}
+	}
+	return s
+}
+
+// reference capacity (nats): plain Blahut-Arimoto until upper and lower bound agree
+func capacity(w model.Mat) float64 {
+	n, m := w.Dims()
+	p := make([]float64, n)
+	for i := range p {
+		p[i] = 1 / float64(n)
+	}
+	for it := 0; it < 200000; it++ {
+		q := make([]float64, m)
+		for i := 0; i < n; i++ {
+			for j := 0; j < m; j++ {
+				q[j] += p[i] * w[i][j]
+			}
+		}
+		dv := make([]float64, n)
+		lower, upper := 0.0, math.Inf(-1)
+		for i := 0; i < n; i++ {
+			for j := 0; j < m; j++ {
+				if w[i][j] > 0 {
+					dv[i] += w[i][j] * math.Log(w[i][j]/q[j])
+				}
+			}
+			lower += p[i] * dv[i]
+			upper = math.Max(upper, dv[i])
+		}
+		if upper-lower < 1e-13 {
+			return lower
+		}
+		z := 0.0
+		for i := range p {
+			p[i] *= math.Exp(dv[i])
+			z += p[i]
+		}
+		for i := range p {
+			p[i] /= z
+		}
+	}
+	return math.NaN()
+}
+
+func TestC07_blahut_capacity(t *testing.T) {
+	rapid.Check(t, func(t *rapid.T) {
+		n := rapid.IntRange(2, 4).Draw(t, "inputs")
+		m := rapid.IntRange(2, 4).Draw(t, "outputs")
+		w := model.NewMat(n, m)
+		for i := 0; i < n; i++ {
+			s := 0.0
+			for j := 0; j < m; j++ {
+				if rapid.IntRange(0, 3).Draw(t, "zero") != 0 {
+					w[i][j] = rapid.Float64Range(0.05, 1).Draw(t, fmt.Sprintf("w[%d][%d]", i, j))
+				}
+				s += w[i][j]
+			}
+			if s == 0 {
+				w[i][0], s = 1, 1
+			}
+			for j := 0; j < m; j++ {
+				w[i][j] /= s
+			}
+		}
+		steps := rapid.SampledFrom([]int{1, 5, 50, 500}).Draw(t, "steps")
+		c := obs.Begin("blahut_capacity", "channel=%v steps=%d", w, steps)
+		c.Classf("steps=%d", steps)
+		c.NT(steps >= 5)
+		cref := capacity(w)
+		if math.IsNaN(cref) {
+			c.Class("reference did not converge")
+			c.End()
+			return
+		}
+		p0 := make([]float64, n)
+		for i := range p0 {
+			p0[i] = 1 / float64(n)
+		}
+		var res Vector
+		var naive []float64
+		pp, to := guarded(func() {
+			res = blahut.Run(gen.ToDense(gen.TFloat64, w), NewDenseFloat64Vector(p0), steps)
+			naive = blahut.RunNaive(w, append([]float64{}, p0...), steps)
+		})
+		if to {
+			c.Class("inconclusive: watchdog")
+			c.End()
+			return
+		}
+		if pp != "" {
+			t.Fatalf("%s: %s", c.Desc(), pp)
+		}
+		p := floats(res)
+		s := 0.0
+		for i, v := range p {
+			if !(v >= 0) {
+				t.Fatalf("%s: returned %v: not a probability vector", c.Desc(), p)
+			}
+			s += v
+			if math.Abs(v-naive[i]) > 1e-9 {
+				t.Fatalf("%s: Run gives %v, RunNaive gives %v", c.Desc(), p, naive)
+			}
+		}
+		if math.Abs(s-1) > 1e-12 {
+			t.Fatalf("%s: returned %v sums to %v", c.Desc(), p, s)
+		}
+		mi := mutualInformation(w, p)
+		if mi > cref+1e-9 {
+			t.Fatalf("%s: I(p;W) = %v exceeds the capacity %v", c.Desc(), mi, cref)
+		}
+		if bound := cref - math.Log(float64(n))/float64(steps) - 1e-9; mi < bound {
+			t.Fatalf("%s: after %d steps from the uniform distribution I(p;W) = %v, below the guaranteed C - log(n)/K = %v (capacity %v)", c.Desc(), steps, mi, bound, cref)
+		}
+		c.End()
+	})
+}
+
+// ---------------------------------------------------------------------------------------------
+// witnesses
+
+func simpleQuadratic(c []float64) objective {
+	n := len(c)
+	o := objective{name: "quadratic", n: n, minimiser: c, lambdaMin: 1, lambdaMax: 1}
+	o.val = func(x []float64) float64 {
+		s := 0.0
+		for i := range x {
+			s += 0.5 * (x[i] - c[i]) * (x[i] - c[i])
+		}
+		return s
+	}
+	o.grad = func(x []float64) []float64 {
+		g := make([]float64, n)
+		for i := range x {
+			g[i] = x[i] - c[i]
+		}
+		return g
+	}
+	o.ad = func(x ConstVector) (MagicScalar, error) {
+		ty := x.ElementType()
+		r, d := NullScalar(ty), NullScalar(ty)
+		for i := 0; i < n; i++ {
+			d.Sub(x.ConstAt(i), cf(c[i]))
+			d.Mul(d, d)
+			d.Mul(d, cf(0.5))
+			r.Add(r, d)
+		}
+		return r.(MagicScalar), nil
+	}
+	return o
+}
+
+func TestKF_newton_eigenvalue_modification(t *testing.T) {
+	o := simpleQuadratic([]float64{1, 2})
+	p, _ := guarded(func() {
+		newton.RunMin(o.ad, NewDenseFloat64Vector([]float64{0, 0.5}), newton.HessianModification{Value: "Eigenvalue"}, newton.MaxIterations{Value: 5})
+	})
+	obs.KFStatus("C07/newton-eigenvalue-hessian-modification-dereferences-nil", p != "", p)
+}
+
+func TestKF_bfgs_ignores_constraints(t *testing.T) {
+	o := simpleQuadratic([]float64{1, 1})
+	hs := halfspace{a: []float64{1, 1}, b: 1.75}
+	res, err := bfgs.Run(o.ad, NewDenseFloat64Vector([]float64{1, 0.5}), bfgs.Constraints{Value: func(x Vector) bool { return hs.ok(floats(x)) }})
+	bad := err == nil && res != nil && !hs.ok(floats(res))
+	obs.KFStatus("C07/bfgs-ignores-constraints-after-the-start", bad, fmt.Sprintf("returned %v err %v", res, err))
+}
+
+func TestKF_adam_returns_unchecked_point(t *testing.T) {
+	o := simpleQuadratic([]float64{1})
+	hs := halfspace{a: []float64{1}, b: 0.05}
+	res, err := adam.Run(o.ad, NewDenseFloat64Vector([]float64{0}), adam.StepSize{Value: 0.1}, adam.MaxIterations{Value: 1},
+		adam.Constraints{Value: func(x Vector) bool { return hs.ok(floats(x)) }})
+	bad := err == nil && res != nil && !hs.ok(floats(res))
+	obs.KFStatus("C07/adam-returns-the-last-update-without-checking-constraints", bad, fmt.Sprintf("returned %v err %v", res, err))
+}
+
+func TestKF_saga_hook_without_regularisation(t *testing.T) {
+	row := NewDenseFloat64Vector([]float64{1})
+	f := saga.Objective1Dense(func(i int, x DenseFloat64Vector) (float64, float64, DenseFloat64Vector, error) {
+		r := x[0] - 1
+		return 0.5 * r * r, r, row, nil
+	})
+	p, _ := guarded(func() {
+		saga.Run(f, 2, NewDenseFloat64Vector([]float64{1.5}), saga.Gamma{Value: 0.3}, saga.MaxIterations{Value: 2},
+			saga.Hook{Value: func(ConstVector, ConstScalar, ConstScalar, int) bool { return false }})
+	})
+	obs.KFStatus("C07/saga-hook-without-regularisation-dereferences-nil", p != "", p)
 }
